@@ -6,8 +6,9 @@ Local Open Scope N_scope.
 (* C04, wrong KEK / corrupted file, as a reduction (no injectivity assumption on any primitive): whenever
    BootImageV21.parse returns an object for ANY byte string and ANY key -- then the signature verification over the range
    it hands to the certificate block succeeded, the first 72 bytes of the key-blob field unwrapped under that key with
-   the RFC 3394 integrity value intact (DEK / MAC of the result are that unwrapped data), and the HMAC-SHA256 of the
-   encrypted section header under the unwrapped MAC key equals the stored one.  Every other outcome is an error. *)
+   the RFC 3394 integrity value intact (DEK / MAC of the result are that unwrapped data), and, unless no section was
+   returned, the HMAC-SHA256 of the first encrypted section header under the unwrapped MAC key equals the stored one.
+   Every other outcome is an error. *)
 Theorem parse21_accepts_only_verified :
   forall (E D : list N -> list N -> list N) sig_ok sigsize kek data p,
   parse21 E D sig_ok sigsize kek data = Ok p ->
@@ -15,6 +16,6 @@ Theorem parse21_accepts_only_verified :
   (exists keys, kw_unwrap (D kek) (firstn (length (slice data 128 208) - 8) (slice data 128 208)) = Some keys /\
                 p_dek p = firstn 32 keys /\ p_mac p = skipn 32 keys) /\
   (let i := (p_signed_len p + p_sig_len p)%nat in
-   eqb_list (slice data (i + 16) (i + 48)) (hmac256 (p_mac p) (slice data i (i + 16))) = true).
+   p_secs p = [] \/ eqb_list (slice data (i + 16) (i + 48)) (hmac256 (p_mac p) (slice data i (i + 16))) = true).
 Proof. exact parse21_accepts_only_verified_thm. Qed.
 Print Assumptions parse21_accepts_only_verified.
